@@ -122,16 +122,28 @@ fn main() {
             ctx.run_batch(&vs, n);
             EngineInfo {
                 rule: "generated structured Wasm programs compiled with injected metering (cost V0/V1, validation V0/V1), including endless zero-cost loops that only out-of-energy can end; the simulated host is the energy authority and the injected fault is energy exhaustion exactly at, one below and above chosen charge points; non-trivial = at least one energy cut or suspension fired, distinct by event-log fingerprint".into(),
-                explanation: "C02 (restricted): identical executions charge identically (also interrupted and from the stored artifact); budgets T, T+1, T+d change only the remainder; a budget one below a charge point ends in out-of-energy with exactly the reference log's prefix (nothing after the charge happened); interpreter steps between positive charges stay below code_size*(depth+3)+64 (watchdog through hook H3), i.e. execution is bounded linearly by the budget; memory length seen by the host never exceeds what was announced; chain level (second batch, script contracts through v1::invoke_receive/resume_receive with the engine's own InterpreterEnergy): remaining energy = budget - charges for budgets used and used+17, and every smaller budget ends in out-of-energy".into(),
+                explanation: "C02: the instruction charges of a completed run equal the cost schedule (frozen V0/V1 price list in /verif) summed over the instructions the real interpreter executed - reported by the program's shadow-counting twin, run unmetered - and on a trapping run are not less (evaluated when the twin makes the same host calls and ends the same way, on programs that write no local inside expression-nested control constructs); identical executions charge identically (also interrupted and from the stored artifact); budgets T, T+1, T+d change only the remainder; a budget one below a charge point ends in out-of-energy with exactly the reference log's prefix (nothing after the charge happened); interpreter steps between positive charges stay below code_size*(depth+3)+64 (watchdog through hook H3), i.e. execution is bounded linearly by the budget; memory length seen by the host never exceeds what was announced; chain level (second batch, script contracts through v1::invoke_receive/resume_receive with the engine's own InterpreterEnergy): remaining energy = budget - charges for budgets used and used+17, every smaller budget - in particular used-1 - ends in out-of-energy, also when the last charge is the one for memory growth".into(),
                 time_unit: "interpreter steps (dispatched instructions)",
                 state_measure: "not used by this engine (0)",
                 fault_kinds: &["energy_cut_at_charge_point", "energy_exhausted", "suspend_resume", "reentry_while_suspended"],
-                probe_names: &["has_host_calls", "trap_outcome", "frame_limit", "ran_zero_copy_artifact"],
-                real: vec!["concordium-wasm (metering transformation, compile, interpreter) from /repo's working tree"],
+                probe_names: &[
+                    "has_host_calls",
+                    "trap_outcome",
+                    "frame_limit",
+                    "ran_zero_copy_artifact",
+                    "cost_twin_compared",
+                    "cost_twin_trap",
+                    "cost_twin_diverged",
+                    "memory_growth_is_last_charge",
+                ],
+                real: vec![
+                    "concordium-wasm (metering transformation, compile, interpreter) from /repo's working tree",
+                    "concordium-smart-contract-engine v1 (InterpreterEnergy, invoke_receive/resume_receive) for the chain-energy batch",
+                ],
                 stub: vec!["energy authority and host functions = SimHost (in /verif)", "num_enum derive (stub crate)"],
                 assumptions: vec![
-                    "NOT decided: that the charged amounts equal the protocol cost schedule summed over the executed instructions (needs a reference interpreter)".into(),
-                    "programs come from /verif's generator".into(),
+                    "the price list of the cost-schedule oracle is a frozen copy in /verif (chainsim/src/wasm.rs static_cost, call_cost, branch_cost)".into(),
+                    "programs come from /verif's generator; conformance of the interpreter to Wasm semantics is not decided (C01)".into(),
                 ],
             }
         }
@@ -150,7 +162,18 @@ fn main() {
                 time_unit: "interpreter energy consumed",
                 state_measure: "not used by this engine (0)",
                 fault_kinds: &["interrupt_resume", "reentry", "nested_failure_rollback", "energy_cut"],
-                probe_names: &["trap_outcome", "reject_outcome", "reference_out_of_energy", "state_loaded_lazily_from_disk", "ran_stored_artifact"],
+                probe_names: &[
+                    "trap_outcome",
+                    "reject_outcome",
+                    "reference_out_of_energy",
+                    "state_loaded_lazily_from_disk",
+                    "ran_stored_artifact",
+                    "script_has_hash_or_signature_call",
+                    "script_has_environment_getter",
+                    "script_has_upgrade",
+                    "script_has_p6_p7_query",
+                    "script_has_oversized_invoke_payload",
+                ],
                 real: vec!["concordium-smart-contract-engine v1 (invoke_receive, resume_receive, host functions, InstanceState, trie) and concordium-wasm from /repo's working tree"],
                 stub: vec![
                     "chain scheduler (instance table, call stack, commit / rollback, state_updated, responses) = /verif stub; the real one is Haskell outside this repository",
